@@ -410,29 +410,22 @@ class MultipartRelatedConsolidator(ConsolidatorBase):
             """
             flags, width, precision, type_char = match.groups()
 
-            # Handle the flags
-            flag_str = ""
-            if "-" in flags:
-                flag_str = "<"  # Left-align
-            if "+" in flags:
-                flag_str += "+"  # Show positive sign
-            elif " " in flags:
-                flag_str += " "  # Space before positive numbers
-            if "0" in flags:
-                flag_str += "0"  # Zero padding
+            # Sign flags: "+" takes precedence over " "
+            sign = "+" if "+" in flags else " " if " " in flags else ""
 
-            # Build width and precision if they exist
+            # A precision zero-pads the digits, e.g. "%6.6d" should be converted to "{:06d}"; a sign comes on top
+            # of the digits. (A precision smaller than the width cannot be expressed; pad to the width instead.)
+            if precision:
+                num_digits = max(int(precision), int(width)) if width else int(precision)
+                return f"{{:{sign}0{num_digits + len(sign)}{type_char}}}"
+
+            # Left-alignment overrides zero padding
+            align = "<" if "-" in flags else ""
+            zero = "0" if "0" in flags and not align else ""
             width_str = width if width else ""
-            precision_str = f".{precision}" if precision else ""
-
-            # Handle cases like "%6.6d", which should be converted to "{:06d}"
-            if precision and width:
-                flag_str = "0"
-                precision_str = ""
-                width_str = str(max(precision, width))
 
             # Construct the new-style format specifier
-            return f"{{:{flag_str}{width_str}{precision_str}{type_char}}}"
+            return f"{{:{align}{sign}{zero}{width_str}{type_char}}}"
 
         self.template = (
             self._sres_parameters["template"]
